@@ -190,6 +190,11 @@ class Clause:
         return f'{self.head} :- {self.body}'
 
 
+def debug_comment(message):
+    '''formats a debug message as Python comment lines. The message can contain line
+    breaks (for example from a quoted atom), every line of it must become a comment.'''
+    return "".join('# ' + line + '\n' for line in (message.splitlines() or ['']))
+
 class YPPrologVisitor(prologVisitor):
     def __init__(self,context):
         self.context = context
@@ -216,7 +221,7 @@ class YPPrologVisitor(prologVisitor):
 
     def _debug(self,*args):
         if self.context.debug_parser:
-            self.context.outf.write('# ' + " ".join([str(a) for a in args]) + '\n')
+            self.context.outf.write(debug_comment(" ".join([str(a) for a in args])))
 
     def visitProgram(self,ctx):
         clauses = {}
